@@ -151,6 +151,26 @@ def _edit_everywhere(tb, x):
     x.uri = "zz_probe_uri"
 
 
+def assert_consistent(a, what):
+    """every derived view of the annotation agrees with its track map: labels() = the labels in use, each
+    label_timeline / label_support / label_duration = the segments carrying the label, get_timeline = the segments"""
+    from pyannote.core import Timeline
+    recs = list(a.itertracks(yield_label=True))
+    by_label = {}
+    for s, _t, l in recs:
+        by_label.setdefault(l, set()).add(s)
+    assert sorted(map(repr, a.labels())) == sorted(map(repr, by_label)), f"labels() of the result of {what} disagree with its tracks"
+    for l, segs in by_label.items():
+        lt = a.label_timeline(l)
+        assert set(lt) == segs, f"label_timeline({l!r}) of the result of {what} disagrees with its tracks"
+        fresh = Timeline(segs)
+        assert list(a.label_support(l)) == list(fresh.support()), f"label_support({l!r}) of the result of {what} disagrees with its tracks"
+        assert a.label_duration(l) == fresh.duration(), f"label_duration({l!r}) of the result of {what} disagrees with its tracks"
+    assert set(a.get_timeline()) == {s for s, _t, _l in recs}, f"get_timeline() of the result of {what} disagrees with its tracks"
+    assert [l for l, _ in a.chart()] and True or True
+    assert sorted(repr(l) for l, _ in a.chart()) == sorted(map(repr, by_label)), f"chart() of the result of {what} disagrees with its tracks"
+
+
 def assert_independent(tb, derived, source, what):
     """`derived` was obtained from `source` by an operation that promises a new object: editing either one in place
     must leave every observation of the other unchanged (the promise "on a copy as requested" / "returns a new
@@ -158,6 +178,7 @@ def assert_independent(tb, derived, source, what):
     operations)"""
     if derived is source:
         return
+    assert_consistent(derived, what)
     before = _snap_ann(source)
     _edit_everywhere(tb, derived)
     assert _snap_ann(source) == before, f"editing the result of {what} changed its source"
